@@ -398,6 +398,79 @@ def join_history_job(version):
     return n, viol
 
 
+def during_settings_read_job(version):
+    """Incoming unicasts while another coroutine is reading the network settings back (``load_network_info`` -- what zigpy's
+    periodic backup runs on a live network): the read is suspended on each of its EZSP commands in turn, a unicast callback is
+    delivered at every such point, and every packet handed to zigpy must carry the coordinator's own address as destination and
+    the callback's fields."""
+    import logging
+
+    logging.disable(logging.CRITICAL)
+    from mc.checks import c14
+
+    viol = []
+    n = 0
+    ctx = c14.Ctx(version, True)
+    try:
+        zt = __import__("zigpy.types", fromlist=["x"])
+        c = {k: v[0] for k, v in c14.DIMS.items()}
+        ni, no = c14.make_info(ctx, c)
+        for coro in (ctx.app.write_network_info(network_info=ni, node_info=no), ctx.app.load_network_info(load_devices=True)):
+            r = ctx.run(coro)
+            if r[0] != "ok":
+                raise explore.InternalError(f"C13 harness: settings round trip on the simulated NCP ended with {r}")
+        own = int(ctx.app.state.node_info.nwk)
+        packets = []
+        ctx.app.packet_received = packets.append
+        ctx.ezsp.add_callback(ctx.app.ezsp_callback_handler)
+        held = []
+        ctx.ncp.submit = held.append
+        task = ctx.loop.create_task(ctx.app.load_network_info(load_devices=True))
+        ctx.loop.settle()
+        base = {k: v[0] for k, v in FIELDS.items()}
+        steps = 0
+        delivered_seq = (ctx.ncp.last_seq - 1) & 0xFF     # callbacks carry the sequence number of the last response the host has been given
+        while not task.done() and steps < 600:
+            steps += 1
+            fields = dict(base, hdr_seq=delivered_seq, sender=0x2000 + steps)
+            n += 1
+            before = len(packets)
+            try:
+                ctx.ezsp.frame_received(enc_incoming(version, 0, fields))
+                ctx.loop.settle()
+            except BaseException as e:  # noqa
+                viol.append(("C13|during-read|raised", f"v{version}: a unicast callback delivered while the settings read is suspended (step {steps}) raised {type(e).__name__}: {e}",
+                             {"world": "c13", "kind": "during-read", "version": version}))
+                break
+            if len(packets) != before + 1:
+                viol.append(("C13|during-read|count", f"v{version}: a unicast callback delivered while the settings read is suspended on its command #{steps} produced "
+                             f"{len(packets) - before} packets", {"world": "c13", "kind": "during-read", "version": version}))
+                break
+            p = packets[-1]
+            if (p.dst.addr_mode, int(p.dst.address)) != (zt.AddrMode.NWK, own) or int(p.src.address) != fields["sender"]:
+                viol.append(("C13|during-read|destination", f"v{version}: unicast delivered while the settings read is suspended on its command #{steps}: packet destination "
+                             f"{p.dst!r} (source {p.src!r}), expected the coordinator's own address {own:#06x}", {"world": "c13", "kind": "during-read", "version": version}))
+                break
+            if not held:
+                ctx.loop.advance(0.5)
+                if not held and not task.done():
+                    break
+                continue
+            fr = held.pop(0)
+            delivered_seq = fr[0]
+            ctx.ezsp.frame_received(fr)
+            ctx.loop.settle()
+        if not task.done():
+            task.cancel()
+            ctx.loop.settle()
+            if not viol:
+                viol.append(("C13|during-read|hang", f"v{version}: the settings read did not finish while unicasts were being delivered ({steps} steps)",
+                             {"world": "c13", "kind": "during-read", "version": version}))
+    finally:
+        ctx.close()
+    return n, viol
+
+
 RECONNECT_SEQS = [(13, 14, 13), (14, 13), (4, 14, 8), (8, 9), (14, 14, 4), (12, 14)]
 
 
@@ -406,6 +479,7 @@ def main(tier: str) -> int:
     rec = explore.pool().map(reconnect_job, RECONNECT_SEQS + ([(a, b) for a in range(4, 15) for b in range(4, 15) if a != b] if tier != "quick" else []))
     rec += explore.pool().map(same_object_reset_job, list(ezspenv.VERSIONS))
     rec += explore.pool().map(join_history_job, list(ezspenv.VERSIONS))
+    rec += explore.pool().map(during_settings_read_job, list(ezspenv.VERSIONS))
     results = sorted(explore.pool().imap_unordered(job, [(v, tier) for v in ezspenv.VERSIONS], chunksize=1), key=lambda r: r[0])
     total = packets = 0
     for n, viol in rec:
@@ -441,6 +515,11 @@ def main(tier: str) -> int:
 def replay(data) -> int:
     if data["kind"] == "same-object-reset":
         n, viol = same_object_reset_job(data["version"])
+        for v in viol:
+            print("VIOLATION:", v[1])
+        return 1 if viol else 0
+    if data["kind"] == "during-read":
+        n, viol = during_settings_read_job(data["version"])
         for v in viol:
             print("VIOLATION:", v[1])
         return 1 if viol else 0
